@@ -457,6 +457,74 @@ def check_commit_counts(p, report, ents):
                                bad is None, detail=bad or "length is the number of candidate rows")
 
 
+def _implies_not_hasattr(test, attr):
+    """test => not hasattr(self, attr): the literal itself, or a conjunction containing it"""
+    t = test
+    if isinstance(t, ast.UnaryOp) and isinstance(t.op, ast.Not) and isinstance(t.operand, ast.Call) \
+            and isinstance(t.operand.func, ast.Name) and t.operand.func.id == "hasattr" and len(t.operand.args) == 2 \
+            and isinstance(t.operand.args[1], ast.Constant) and t.operand.args[1].value == attr:
+        return True
+    if isinstance(t, ast.BoolOp) and isinstance(t.op, ast.And):
+        return any(_implies_not_hasattr(v, attr) for v in t.values)
+    return False
+
+
+def check_manager_construction(p, report):
+    n = 0
+    for f in p.all_functions():
+        if "/tests/" in f.file or not f.file.startswith("skactiveml/stream/"):
+            continue
+        tree = None
+        for st in ast.walk(f.node):
+            if not (isinstance(st, ast.Assign) and isinstance(st.value, ast.Call)
+                    and callname_(st.value) == "check_budget_manager"
+                    and any(isinstance(t, ast.Attribute) and t.attr == "budget_manager_" for t in st.targets)):
+                continue
+            tree = tree or FuncTree(f.node)
+            guards = [owner.test for (s_, owner, field, idx) in tree.ancestors(st) if isinstance(owner, ast.If) and field == "body"]
+            once = any(_implies_not_hasattr(g, "budget_manager_") for g in guards)
+            a0 = st.value.args[0] if st.value.args else next((k.value for k in st.value.keywords if k.arg == "budget"), None)
+            cfg = a0 is not None and ast.unparse(a0) == "self.budget"
+            n += 1
+            report.add("R4.7", f.qual, f"`{norm_stmt(st, 50)}` built once, with self.budget", f"{f.file}:{st.lineno}", once and cfg,
+                       detail="under `not hasattr(self, 'budget_manager_')`, budget=self.budget" if once and cfg else
+                       ("the guard does not imply that no manager exists yet: a later call replaces the manager and with it "
+                        "everything update recorded (spent estimate back to 0)" if not once else
+                        f"the manager is built with `{ast.unparse(a0) if a0 is not None else '?'}` instead of the configured "
+                        f"self.budget: on a path where that value is not the configured one the default budget is enforced"))
+    # R4.8 filter agreement
+    for ci in p.exported_classes("skactiveml.stream"):
+        q, u = p.find_method(ci, "query"), p.find_method(ci, "update")
+        if q is None or u is None or is_abstract(q) or is_abstract(u):
+            continue
+
+        def filter_tests(fn):
+            out = {}
+            for L in ast.walk(fn.node):
+                if not (isinstance(L, ast.For) and "candidates" in names_in(L.iter)):
+                    continue
+                # per-candidate values computed by a self-method inside the loop
+                vals = {t.id for n in L.body if isinstance(n, ast.Assign) and isinstance(n.value, ast.Call)
+                        and isinstance(n.value.func, ast.Attribute) and isinstance(n.value.func.value, ast.Name)
+                        and n.value.func.value.id == "self" for t in n.targets if isinstance(t, ast.Name)}
+                for n in ast.walk(L):
+                    if isinstance(n, ast.If) and names_in(n.test) & vals:
+                        txt = ast.unparse(n.test)
+                        for v in sorted(vals):
+                            txt = txt.replace(v, "$V")
+                        out.setdefault(txt, n)
+            return out
+        tq, tu = filter_tests(q), filter_tests(u)
+        if not tq and not tu:
+            continue
+        same = set(tq) == set(tu)
+        report.add("R4.8", f"{ci.name}.query/update", "per-candidate filter tests agree", f"{u.file}:{u.node.lineno}", same,
+                   detail=f"both use {sorted(tq)}" if same else
+                   f"query filters with {sorted(tq)} but update with {sorted(tu)}: an instance can be granted a label by "
+                   f"query and dropped (together with its label) before the budget manager's update, which then never "
+                   f"accounts for it")
+
+
 def run(p, report, tier):
     report.rule("R4.1", "inside the per-instance loop every grant (append of the counter / store of a possibly-true "
                 "value into queried[i]) can only happen when the budget guard of that iteration is true (boolean "
@@ -616,6 +684,14 @@ def run(p, report, tier):
                 "queried indices by their number (len / indicator sum), never by a reduction over the index values",
                 floor=8)
     check_commit_counts(p, report, ents)
+    report.rule("R4.7", "the budget manager that does the accounting is built once and with the configured budget: every "
+                "`self.budget_manager_ = check_budget_manager(...)` sits under a test that implies the attribute does "
+                "not exist yet (`not hasattr(self, 'budget_manager_')`, possibly conjoined, never disjoined with something "
+                "that can hold later), and its first argument is the constructor parameter `self.budget`", floor=8)
+    report.rule("R4.8", "query and update of a strategy that filters the instances it shows to its budget manager filter "
+                "with the same tests: the If tests on the per-candidate filter value in the candidate loop of update are "
+                "those of query (an instance granted a label by query must not be dropped by update)", floor=2)
+    check_manager_construction(p, report)
     report.assumptions += [
         "the numerical bounds of the property follow from R4.1-R4.4 by arithmetic that is not in the code; only the four structural premises are decided",
         "strict vs. non-strict comparison is not judged",
